@@ -99,22 +99,30 @@ NoAnc == [has |-> FALSE, p |-> <<>>]
 Anc(p) == [has |-> TRUE, p |-> p]
 Off(p, isnull, near, c) == [p |-> p, null |-> isnull, near |-> near, c |-> c]
 
+\* class label of an offending position: [alias/]<node kind>:<what was found>[@item | @item-field]
+\*  alias/      a field on the path has a response key different from its JSON key
+\*  @item       the position is a list item;  @item-field  a field of an object that is a list item
+PosShape(p) == IF Len(p) >= 1 /\ p[Len(p)].t = "i" THEN "@item"
+               ELSE IF Len(p) >= 2 /\ p[Len(p) - 1].t = "i" THEN "@item-field"
+               ELSE ""
+Found(T, jv) == IF T.k = "Enum" /\ jv.t = "s" THEN (IF InSeq(jv.v, T.vals) THEN "inaccessible" ELSE "invalid") ELSE jv.t
+Cls(al, T, what, p) == (IF al THEN "alias/" ELSE "") \o T.k \o ":" \o what \o PosShape(p)
+
 RECURSIVE Offs(_, _, _, _, _, _)
 Offs(T, jv, p, na, tns, al) ==
-  LET pre == IF al THEN "alias/" ELSE "" IN
-  IF Nullish(jv) THEN (IF T.n THEN <<>> ELSE <<Off(p, TRUE, na, pre \o T.k \o ":null")>>)
+  IF Nullish(jv) THEN (IF T.n THEN <<>> ELSE <<Off(p, TRUE, na, Cls(al, T, "null", p))>>)
   ELSE
     LET me == IF T.n THEN Anc(p) ELSE na IN
-    CASE IsLeaf(T) -> IF LeafOK(T, jv) THEN <<>> ELSE <<Off(p, FALSE, na, pre \o T.k \o ":" \o jv.t)>>
+    CASE IsLeaf(T) -> IF LeafOK(T, jv) THEN <<>> ELSE <<Off(p, FALSE, na, Cls(al, T, Found(T, jv), p))>>
       [] T.k = "Array" ->
-           IF jv.t # "l" THEN <<Off(p, FALSE, na, pre \o "Array:" \o jv.t)>>
+           IF jv.t # "l" THEN <<Off(p, FALSE, na, Cls(al, T, jv.t, p))>>
            ELSE LET n == Len(jv.v)
                     acc[i \in 0..n] == IF i = 0 THEN <<>>
                                        ELSE acc[i - 1] \o Offs(T.it[1], jv.v[i], Append(p, JI(i - 1)), me, tns, al)
                 IN acc[n]
       [] T.k = "Object" ->
-           IF jv.t # "o" THEN <<Off(p, FALSE, na, pre \o "Object:" \o jv.t)>>
-           ELSE IF ~ValidObj(T, jv) THEN <<Off(p, FALSE, na, pre \o "Object:typename")>>
+           IF jv.t # "o" THEN <<Off(p, FALSE, na, Cls(al, T, jv.t, p))>>
+           ELSE IF ~ValidObj(T, jv) THEN <<Off(p, FALSE, na, Cls(al, T, "typename", p))>>
            ELSE LET tns2 == Append(tns, RT(jv))
                     sel == Sel(T, tns2)
                     n == Len(sel)
